@@ -3,7 +3,8 @@ From CV Require Import Base PostAction Transient.
 From CVP Require Import Transient_proofs.
 Open Scope N_scope.
 
-(* For EVERY sequence of child post-actions, remove(), replace(new), parent register/reregister/unregister that follows the
+(* For EVERY sequence of child post-actions (also followed, inside the same process_events, by the parent's remove() or
+   replace(new) and a Reregister answer), remove(), replace(new), parent register/reregister/unregister that follows the
    documented protocol (proto_ok), starting from From<T> or Default, and that never reaches the recorded F7 state:
    - every child register/reregister/unregister call succeeds (never registered twice, never unregistered while unregistered),
    - every dropped child is unregistered at that moment, every value returned to the loop is Continue or Reregister
@@ -35,3 +36,10 @@ Example C18_nonvacuous :
   proto_ok (t_init true) [OpRegister; OpEvent Continue; OpReplace; OpReregister; OpEvent Reregister; OpUnregister; OpRegister; OpEvent Remove] = true /\
   f7_free (t_init true) [OpRegister; OpEvent Continue; OpReplace; OpReregister; OpEvent Reregister; OpUnregister; OpRegister; OpEvent Remove] = true.
 Proof. vm_compute. split; reflexivity. Qed.
+(* the child answers Disable and the parent replaces it inside the same process_events: the old child is unregistered before
+   it is dropped, the new one registered *)
+Example C18_disable_then_replace_nonvacuous :
+  let ops := [OpRegister; OpEventThen Disable true; OpEvent Continue] in
+  proto_ok (t_init true) ops = true /\ f7_free (t_init true) ops = true /\
+  evs (t_run true ops) = [CReg 0 true; CRes true; CFwd 0; CRet 1; CUnreg 0 true; CReg 1 true; CDrop 0 false; CRes true; CFwd 1; CRet 0].
+Proof. vm_compute. repeat split; reflexivity. Qed.
